@@ -33,6 +33,7 @@ type mod struct {
 	Imports  []imp
 	Broken   bool
 	DirIndex bool // lives at Dir/Base/index<Ext>
+	JSONForm int  // how this module imports src/data.json: 0 not, 1 default+named, 2 named only, 3 default only, 4 namespace, 5 require
 }
 
 func (m *mod) path() string {
@@ -69,6 +70,32 @@ func (m *mod) render() string {
 			fmt.Fprintf(&b, "import { T as T_%d } from %q;\n", i, im.Spec)
 		case "dynamic", "require":
 		}
+	}
+	// a JSON file whose default export and named properties can both be live (the linker rewrites the
+	// lazily exported object literal; its cached AST must stay untouched between rebuilds)
+	jsonSpec := "./data.json"
+	if m.Dir != "src" {
+		jsonSpec = "../data.json"
+		if strings.Count(m.Dir, "/") >= 2 {
+			jsonSpec = "../../data.json"
+		}
+	}
+	if m.DirIndex {
+		jsonSpec = "../" + jsonSpec
+	}
+	switch m.JSONForm {
+	case 1:
+		fmt.Fprintf(&b, "import jdata, { list as jlist, name as jname } from %q;\n", jsonSpec)
+		uses = append(uses, "JSON.stringify(jdata)", "jlist.length", "jname", "jdata.list === jlist")
+	case 2:
+		fmt.Fprintf(&b, "import { list as jlist, nested as jnested } from %q;\n", jsonSpec)
+		uses = append(uses, "jlist.length", "jnested.k")
+	case 3:
+		fmt.Fprintf(&b, "import jdata from %q;\n", jsonSpec)
+		uses = append(uses, "JSON.stringify(jdata)")
+	case 4:
+		fmt.Fprintf(&b, "import * as jns from %q;\n", jsonSpec)
+		uses = append(uses, "jns.list.length", "JSON.stringify(jns.default)")
 	}
 	switch m.Kind {
 	case "esm":
@@ -520,8 +547,17 @@ func genProject(rt *rapid.T) *model {
 	}
 	m.files = map[string]string{}
 	for _, x := range m.mods {
+		if x.Kind == "esm" && !x.DirIndex && (x.Dir == "src" || strings.HasPrefix(x.Dir, "src/")) && rapid.IntRange(0, 2).Draw(rt, "json-import") == 0 {
+			x.JSONForm = rapid.IntRange(1, 4).Draw(rt, "json-form")
+		}
+	}
+	if m.mods[0].JSONForm == 0 && rapid.Bool().Draw(rt, "index-json") {
+		m.mods[0].JSONForm = 1
+	}
+	for _, x := range m.mods {
 		m.write(rt, x.path(), x.render())
 	}
+	m.write(rt, "src/data.json", "{\"list\": [1, 2, 3], \"name\": \"demo\", \"nested\": {\"k\": true}, \"unused\": [null]}\n")
 
 	m.write(rt, tsPath, m.ts.render())
 	m.write(rt, pjPath, m.pj.render())
